@@ -63,8 +63,8 @@ Bind(e) ==
   /\ snap' = (IF "snap" \in DOMAIN e.st THEN SnapOf(e.st.snap) ELSE snap)
   /\ other' = [streams |-> StreamsOf(e.other.streams), groups |-> GroupsOf(e.other.groups)]
   /\ pre' = (IF e.a = "Open" THEN EmptyPre
-             ELSE IF e.a = "Restart" THEN [streams |-> streams, groups |-> groups, disk |-> disk] ELSE pre)
-  /\ nres' = (IF e.a = "Open" THEN 0 ELSE IF e.a = "Restart" THEN nres + 1 ELSE nres)
+             ELSE IF e.a \in {"Restart", "Install"} THEN [streams |-> streams, groups |-> groups, disk |-> disk] ELSE pre)
+  /\ nres' = (IF e.a = "Open" THEN 0 ELSE IF e.a \in {"Restart", "Install"} THEN nres + 1 ELSE nres)
 
 OpNames == {"CreateStream", "DeleteStream", "Pause", "Resume", "SetReadonly", "ShrinkISR", "ExpandISR", "ChangeLeader",
             "CreateGroup", "JoinGroup", "LeaveGroup", "ChangeCoordinator", "PublishActivity"}
@@ -72,7 +72,10 @@ OpNames == {"CreateStream", "DeleteStream", "Pause", "Resume", "SetReadonly", "S
 SnapOrder == [g \in DOMAIN sref'.groups |-> [i \in DOMAIN sref'.groups[g].members |-> sref'.groups[g].members[i].c]]
 
 ImplOf(e) ==
-  CASE e.a \in OpNames -> (IF e.args.rec THEN DoReplay(OpOf(e.args.o)) ELSE DoApply(OpOf(e.args.o)))
+  CASE e.a \in OpNames -> (IF e.args.rec THEN DoReplay(OpOf(e.args.o))
+                           ELSE IF mode = "catchup" THEN DoCatchup(OpOf(e.args.o)) ELSE DoApply(OpOf(e.args.o)))
+    [] e.a = "Install" -> DoInstall
+    [] e.a = "CaughtUp" -> DoCaughtUp
     [] e.a = "Snapshot" -> DoSnapshot(SnapOrder)
     [] e.a = "Persist" -> DoPersist
     [] e.a = "Restart" -> DoRestart
